@@ -21,6 +21,18 @@ CHECKS = {
         design="3 (C20)", technique=CH),
 }
 
+CHECKS["C14"] = dict(
+    engine="bvsym",
+    text="The real murmur3_32 function object is executed on lazy unbounded-integer proxies (symbolic bytes, symbolic "
+         "32-bit seed); for each length 0..48 one QF_BV query `low32(result) != MurmurHash3_x86_32(bytes, seed)` is "
+         "discharged by z3: unsat means equality for every content and every seed of that length. A sat answer is a "
+         "concrete (string, seed) replayed on the real function.",
+    note="Bound: lengths 0..48 (longer strings: z3 unknown). Trusted: z3, the lowering identities of vkit/bvsym.py (proved at "
+         "small width + differential at setup), the hand-written 32-bit reference (validated on 17 published vectors). "
+         "If a change makes the code non-executable on the proxies the check falls back to CrossHair bug-hunting and "
+         "otherwise reports inconclusive (exit 3).",
+    design="1.2 and 3 (C14)", technique="symbolic execution of the real function on bit-vector proxies + SMT (z3 QF_BV) per length")
+
 NOT_YET = {}
 
 NA_REASON_PENDING = "check not built yet in this session (planned; see DESIGN.md section 3)"
